@@ -64,6 +64,15 @@ fn programs() -> Vec<Program> {
       ],
     },
     P {
+      name: "rejected: names of more than 15 bytes (interned by id) that two modules mention in opposite orders, in diagnostics that list or choose among names",
+      entry: "Main",
+      modules: vec![
+        ("Decl", "interface LongNames {\n  method alphaMethodWithALongName(): int\n  method betaMethodWithALongName(): int\n  method gammaMethodWithALongName(): int\n}\nclass LongEnum(AlphaVariantWithALongName(int), BetaVariantWithALongName(int), GammaVariantWithALongName(int)) {}\nclass LongRec(val alphaFieldWithALongName: int, val betaFieldWithALongName: int, val gammaFieldWithALongName: int) {}\n"),
+        ("Rev", "interface RevNames {\n  method gammaMethodWithALongName(): int\n  method betaMethodWithALongName(): int\n  method alphaMethodWithALongName(): int\n}\nclass RevEnum(GammaVariantWithALongName(int), BetaVariantWithALongName(int), AlphaVariantWithALongName(int)) {}\nclass RevRec(val gammaFieldWithALongName: int, val betaFieldWithALongName: int, val alphaFieldWithALongName: int) {}\n"),
+        ("Main", "import { LongNames, LongEnum, LongRec } from Decl\nimport { RevNames, RevEnum, RevRec } from Rev\nclass Impl : LongNames {}\nclass RevImpl : RevNames {}\nclass Main {\n  function one(e: LongEnum): int = match e { AlphaVariantWithALongName(_) -> 1 }\n  function two(e: RevEnum): int = match e { BetaVariantWithALongName(_) -> 1 }\n  function inner(e: LongEnum): int = match e { AlphaVariantWithALongName(1) -> 1, BetaVariantWithALongName(1) -> 2, GammaVariantWithALongName(1) -> 3 }\n  function fields(r: LongRec, q: RevRec): int = { let { betaFieldWithALongName } = r; let { betaFieldWithALongName as b2 } = q; betaFieldWithALongName + b2 }\n  function orPattern(e: LongEnum): int = match e { AlphaVariantWithALongName(alphaBindingWithALongName) | BetaVariantWithALongName(betaBindingWithALongName) -> 1, GammaVariantWithALongName(_) -> 2 }\n  function main(): unit = { }\n}\n"),
+      ],
+    },
+    P {
       name: "accepted: classes of the same name with different type-parameter lists in two modules",
       entry: "Main",
       modules: vec![
